@@ -144,6 +144,11 @@ package submission
 //@ ensures [with-complete-root-data-an-unrootable-chain-is-refused] vc.called && vc.res1 != nil && old(d.rootDataFull) ==> result2 != nil && !c2.called
 //@ ensures [every-list-offered-went-through-the-compatibility-filter] result2 == nil ==> (c0.called && result0 == c0.res) || (c1.called && result0 == c1.res) || (c2.called && result0 == c2.res)
 //@ at c0 assert [temporal-filter-on-the-leaf-when-root-checking-is-disabled] c0.ll == d.usableLl && c0.cert == pr.res0[0] && c0.certRoot == nil && d.rootCompatibilityCheckDisabled
+//@ site RLock#1 as rl
+//@ site ctfe.NewCertValidationOpts#1 as nv
+//@ at nv assert [root-pool-read-under-the-read-lock] rl.called && nv.trustedRoots == d.rootPool
+//@ at c1 assert [per-log-roots-read-under-the-read-lock] rl.called
+//@ at c2 assert [per-log-roots-and-completeness-read-under-the-read-lock] rl.called
 //@ at vc assert [the-submitted-chain-is-validated-against-the-known-roots] vc.rawChain == rawChain
 //@ at c1 assert [temporal-and-root-filter-on-the-validated-path] c1.ll == d.usableLl && vc.res1 == nil && c1.cert == vc.res0[0] && c1.certRoot == vc.res0[len(vc.res0) - 1] && c1.roots == d.logRoots
 //@ at c2 assert [temporal-filter-only-while-root-data-is-incomplete] c2.ll == d.usableLl && c2.cert == pr.res0[0] && c2.certRoot == nil && vc.res1 != nil && !d.rootDataFull
